@@ -99,7 +99,7 @@ func runC05(c map[string]interface{}) []Event {
 		if num(c["bo"]) == 1 {
 			order = binary.LittleEndian
 		}
-		e := Event{"ev": "enc", "bytes": []interface{}{}, "hex": []interface{}{}, "keep": true}
+		e := Event{"ev": "enc", "bytes": []interface{}{}, "hex": []interface{}{}, "keep": true, "stream": false}
 		e["out"] = safely(func() {
 			b, err := wkb.Encode(g, order)
 			if err != nil {
@@ -114,10 +114,40 @@ func runC05(c map[string]interface{}) []Event {
 			}
 			// the encodings returned for the previous geometry are still what they were
 			e["keep"] = bytes.Equal(c05PrevB, c05PrevBCopy) && c05PrevH == c05PrevHCopy
+			prevEnc := c05PrevBCopy
 			c05PrevB, c05PrevBCopy = b, append([]byte(nil), b...)
 			c05PrevH, c05PrevHCopy = h, string(append([]byte(nil), h...))
 			e["hex"] = hexDigits(h)
 			e["out2"] = "ok"
+			// a stream: this encoding, the previous geometry's and this one again, written back to back and read through a
+			// reader that has nothing but Read; every one of them comes back as the bytes it was written as
+			var st bytes.Buffer
+			parts := [][]byte{b, prevEnc, b}
+			for _, p := range parts {
+				st.Write(p)
+			}
+			rd := struct{ io.Reader }{&st}
+			okStream := true
+			for _, p := range parts {
+				if len(p) == 0 {
+					continue
+				}
+				g2, err := wkb.Read(rd)
+				if err != nil {
+					okStream = false
+					break
+				}
+				var o2 binary.ByteOrder = binary.BigEndian
+				if p[0] == 1 {
+					o2 = binary.LittleEndian
+				}
+				b2, err := wkb.Encode(g2, o2)
+				if err != nil || !bytes.Equal(b2, p) {
+					okStream = false
+					break
+				}
+			}
+			e["stream"] = okStream
 		})
 		return []Event{e}
 	case "deep": // a leaf wrapped in d one-member collections
